@@ -127,53 +127,75 @@ def Ans.isOk : Ans → Bool
   | .ok _ => true
   | _ => false
 
-def accept (a : Acc) : TOp → Acc × Ans
-  | .cfg mad limit =>
-    if limit = 0 then (a, .badOp)
-    else ({ a with branches := [init { Settings.recommended with maxAckDelay := mad, ackRangesLimit := limit }] }, .ok "b=1")
-  | .rx t pn ae ce pc =>
-    let cands := a.branches.flatMap (fun s => advance s t)
-    let next := dedup (cands.map (fun s => (onProcessedPacket s ⟨pn, ae, if ce then .ce else .notEct, pc, t⟩).1))
-    ({ a with branches := next }, .ok s!"b={next.length}")
-  | .tx t ownPn ae (some obs) m =>
-    let cands := a.branches.flatMap (fun s => advance s t)
-    if m == .mtuProbing || m == .pathValidationOnly then (a, .err "ack-in-probe-mode")
-    else
-      let good := cands.filter (fun s => (ackReject s obs m).isNone)
-      match good with
-      | [] =>
-        -- best effort continuation so that later ops are still checked
-        let cont := dedup (cands.filterMap (fun s => complete s ownPn ae))
-        ({ a with branches := if cont.isEmpty then cands else cont },
-         .err ((firstSome (cands.map (fun s => ackReject s obs m))).getD "no-state"))
-      | _ =>
-        let exact := good.any (fun s => obs == AckRanges.ackRanges s.ackRanges)
-        match mapOpt (fun s => complete s ownPn ae) good with
-        | some next =>
-          let next := dedup next
-          ({ branches := next, inexact := if exact then a.inexact else a.inexact + 1 },
-           .ok s!"b={next.length} exact={boolStr exact}")
-        | none => (a, .err "model-panic")
-  | .tx t _ ae none m =>
-    if m == .mtuProbing || m == .pathValidationOnly then (a, .ok s!"b={a.branches.length} skipped")
-    else
-      let cands := dedup (a.branches.flatMap (fun s => advance s t))
-      let good := cands.filter (fun s => (noAckReject s ae m).isNone)
-      match good with
-      | [] =>
-        match cands with
-        | [] => (a, .ok "b=0")
-        | _ => ({ a with branches := cands }, .err ((firstSome (cands.map (fun s => noAckReject s ae m))).getD "no-state"))
-      | _ =>
-        let probeNoAck := !m.isNormal && good.all (fun s => !s.ackRanges.isEmpty)
-        ({ a with branches := good }, .ok (s!"b={good.length}" ++ (if probeNoAck then " probe-noack" else "")))
-  | .acked rs =>
-    match mapOpt (foldOpt (fun s r => onPacketAck s [r]) rs) a.branches with
-    | some next => let next := dedup next; ({ a with branches := next }, .ok s!"b={next.length}")
+def advanceAll (bs : List State) (t : Nat) : List State := bs.flatMap (fun s => advance s t)
+
+def acceptCfg (a : Acc) (mad limit : Nat) : Acc × Ans :=
+  if limit = 0 then (a, .badOp)
+  else ({ a with branches := [init { Settings.recommended with maxAckDelay := mad, ackRangesLimit := limit }] }, .ok "b=1")
+
+def rxStates (bs : List State) (t pn : Nat) (ae ce pc : Bool) : List State :=
+  dedup ((advanceAll bs t).map (fun s => (onProcessedPacket s ⟨pn, ae, if ce then .ce else .notEct, pc, t⟩).1))
+
+def acceptRx (a : Acc) (t pn : Nat) (ae ce pc : Bool) : Acc × Ans :=
+  ({ a with branches := rxStates a.branches t pn ae ce pc }, .ok s!"b={(rxStates a.branches t pn ae ce pc).length}")
+
+/-- the branches that admit the observed ACK frame -/
+def goodAck (bs : List State) (t : Nat) (obs : List Interval) (m : Mode) : List State :=
+  (advanceAll bs t).filter (fun s => (ackReject s obs m).isNone)
+
+/-- best effort continuation after a rejected `tx`, so that later ops are still checked -/
+def contAck (bs : List State) (t ownPn : Nat) (ae : Bool) : List State :=
+  let cont := dedup ((advanceAll bs t).filterMap (fun s => complete s ownPn ae))
+  if cont.isEmpty then advanceAll bs t else cont
+
+def acceptTxAck (a : Acc) (t ownPn : Nat) (ae : Bool) (obs : List Interval) (m : Mode) : Acc × Ans :=
+  if m == .mtuProbing || m == .pathValidationOnly then (a, .err "ack-in-probe-mode")
+  else if (goodAck a.branches t obs m).isEmpty then
+    ({ a with branches := contAck a.branches t ownPn ae },
+     .err ((firstSome ((advanceAll a.branches t).map (fun s => ackReject s obs m))).getD "no-state"))
+  else
+    match mapOpt (fun s => complete s ownPn ae) (goodAck a.branches t obs m) with
+    | some next =>
+      let exact := (goodAck a.branches t obs m).any (fun s => obs == AckRanges.ackRanges s.ackRanges)
+      ({ branches := dedup next, inexact := if exact then a.inexact else a.inexact + 1 },
+       .ok s!"b={(dedup next).length} exact={boolStr exact}")
     | none => (a, .err "model-panic")
-  | .lost pns =>
-    let next := dedup (a.branches.map (fun s => pns.foldl (fun s pn => onPacketLoss s [⟨pn, pn⟩]) s))
-    ({ a with branches := next }, .ok s!"b={next.length}")
+
+def goodNoAck (bs : List State) (t : Nat) (ae : Bool) (m : Mode) : List State :=
+  (dedup (advanceAll bs t)).filter (fun s => (noAckReject s ae m).isNone)
+
+def acceptTxNoAck (a : Acc) (t : Nat) (ae : Bool) (m : Mode) : Acc × Ans :=
+  if m == .mtuProbing || m == .pathValidationOnly then (a, .ok s!"b={a.branches.length} skipped")
+  else if (goodNoAck a.branches t ae m).isEmpty then
+    if (advanceAll a.branches t).isEmpty then (a, .ok "b=0")
+    else ({ a with branches := dedup (advanceAll a.branches t) },
+          .err ((firstSome ((advanceAll a.branches t).map (fun s => noAckReject s ae m))).getD "no-state"))
+  else
+    let probeNoAck := !m.isNormal && (goodNoAck a.branches t ae m).all (fun s => !s.ackRanges.isEmpty)
+    ({ a with branches := goodNoAck a.branches t ae m },
+     .ok (s!"b={(goodNoAck a.branches t ae m).length}" ++ (if probeNoAck then " probe-noack" else "")))
+
+/-- one `on_packet_ack(range)` per range of the received ACK frame, in frame order -/
+def ackedState (rs : List Interval) (s : State) : Option State := foldOpt (fun s r => onPacketAck s [r]) rs s
+
+def acceptAcked (a : Acc) (rs : List Interval) : Acc × Ans :=
+  match mapOpt (ackedState rs) a.branches with
+  | some next => ({ a with branches := dedup next }, .ok s!"b={(dedup next).length}")
+  | none => (a, .err "model-panic")
+
+/-- one `on_packet_loss(pn..=pn)` per lost packet -/
+def lostState (pns : List Nat) (s : State) : State := pns.foldl (fun s pn => onPacketLoss s [⟨pn, pn⟩]) s
+
+def acceptLost (a : Acc) (pns : List Nat) : Acc × Ans :=
+  ({ a with branches := dedup (a.branches.map (lostState pns)) }, .ok s!"b={(dedup (a.branches.map (lostState pns))).length}")
+
+def accept (a : Acc) : TOp → Acc × Ans
+  | .cfg mad limit => acceptCfg a mad limit
+  | .rx t pn ae ce pc => acceptRx a t pn ae ce pc
+  | .tx t ownPn ae (some obs) m => acceptTxAck a t ownPn ae obs m
+  | .tx t _ ae none m => acceptTxNoAck a t ae m
+  | .acked rs => acceptAcked a rs
+  | .lost pns => acceptLost a pns
 
 /-- a whole trace: the answers in op order -/
 def acceptAll (a : Acc) : List TOp → List Ans
